@@ -247,6 +247,31 @@ def r4(ctx):
         ctx.emit('C12-R4', not bad, BINCOUNTS, g, f'filter `{name}`: over {ncase} cases the read is rejected iff the documented predicate holds' if not bad else
                  f'filter `{name}` differs at {bad[0]["case"]}: outcomes {bad[0]["outcomes"]}, documented: {"count" if bad[0]["documented_accept"] else "reject"}',
                  key=key, witness=bad[0] if bad else None, nontrivial=name in ('mapq', 'duplicate'))
+    # the filters are independent: over every combination of all their atoms at once the read is counted iff NO documented predicate holds (a filter that is
+    # only consulted when another one did not apply - `if mp ...: elif mapq ...` - lets reads through that the threshold should stop)
+    allren = {}
+    for name, ren, spec in specs:
+        for t_, b_ in ren.items():
+            allren[t_] = f'{name}.{b_}'
+    names = sorted(set(allren.values()))
+    bad, ncase = [], 0
+    for bv in itertools.product((True, False), repeat=len(names)):
+        benv = dict(zip(names, bv))
+        facts = dict(BASE)
+        for t_, b_ in allren.items():
+            facts[t_] = benv[b_]
+        facts['min_mq is None'] = not benv['mapq.has']
+        for case, outs in outcomes_by_case(g.body, [{'mq': 0, 'min': 1}, {'mq': 1, 'min': 1}], atom, facts=facts):
+            ncase += 1
+            rejected_by = [name for name, ren, spec in specs if spec(dict({b_: benv[f'{name}.{b_}'] for b_ in set(ren.values())}, **case))]
+            want = not rejected_by
+            got = {bool(v) if isinstance(v, (bool, int)) else v for k_, v in outs if k_ == 'return'}
+            if (got != {want} or any(k_ != 'return' for k_, v in outs)) and len(bad) < 1:
+                bad.append({'case': {k_: v_ for k_, v_ in dict(benv, **case).items()}, 'outcomes': sorted(map(str, outs)), 'documented': 'count' if want else f'reject ({rejected_by})'})
+    ctx.counters['abstract_cases'] += ncase
+    ctx.emit('C12-R4', not bad, BINCOUNTS, g, f'all filters together: over {ncase} combinations of every filter atom the read is counted iff no filter predicate holds' if not bad else
+             f'filters interfere at {bad[0]["case"]}: outcomes {bad[0]["outcomes"]}, documented: {bad[0]["documented"]}', key='filters-independent', witness=bad[0] if bad else None,
+             what='read_counts: a filter is skipped depending on the outcome of another filter')
     f, loop = _count_loop(ctx)
     calls = [c for c in walk_no_nested(loop) if isinstance(c, ast.Call) and dotted(c.func) == 'read_counts']
     kw = {k.arg: src(k.value) for k in calls[0].keywords} if calls else {}
@@ -363,6 +388,82 @@ def r6(ctx):
              'obtain_counts merges a job result into an existing bin per sample (counts[bin].update(samples))' if not whole and per_bin else
              'obtain_counts replaces whole bins (counts.update(result)): samples another job reported for the same bin are dropped (several input files share bins)',
              key='merge-per-bin-and-sample', undecided=(not whole and not per_bin), what='obtain_counts: job results are merged by replacing whole bins')
+
+
+@rule('C12', 'C12-R7', 'every job is executed: what obtain_counts hands to the worker pool is the command list itself, or - when the commands are grouped into batches - a grouping '
+                       'that contains every command exactly once (the grouping statements are evaluated on command lists of 0..12 entries for 1..4 threads)')
+def r7(ctx):
+    import copy
+    from ..consteval import run_function, Raised, Unfoldable
+    o = ctx.fn(BINCOUNTS, 'obtain_counts')
+    pool = [c for c in walk_no_nested(o) if isinstance(c, ast.Call) and isinstance(c.func, ast.Attribute) and c.func.attr in ('imap_unordered', 'imap', 'map', 'starmap') and len(c.args) >= 2
+            and not (isinstance(c.func.value, ast.Name) and c.func.value.id in ('itertools',))]
+    ctx.need('C12-R7', len(pool), 1, 'pool map call of obtain_counts')
+    params = [a.arg for a in o.args.args]
+    cmd = params[0]
+    for c in pool:
+        it = c.args[1]
+        if isinstance(it, ast.Name) and it.id == cmd:
+            reb = [s_ for s_ in walk_no_nested(o) if isinstance(s_, ast.Assign) and any(isinstance(t, ast.Name) and t.id == cmd for t in s_.targets)
+                   and not (isinstance(s_.value, ast.Call) and dotted(s_.value.func) in ('list', 'tuple') and len(s_.value.args) == 1 and src(s_.value.args[0]) == cmd)]
+            if not reb:
+                ctx.emit('C12-R7', True, BINCOUNTS, c, f'the pool maps the worker over `{cmd}` itself', key='every-command-executed')
+                continue
+        # a derived iterable: evaluate the straight-line statements that build it
+        stmts = []
+        for s_ in o.body:
+            if any(x is c for x in ast.walk(s_)):
+                break
+            if isinstance(s_, ast.Assign) and all(isinstance(t, ast.Name) for t in s_.targets):
+                stmts.append(copy.deepcopy(s_))
+            elif isinstance(s_, ast.If) and all(isinstance(x, (ast.Assign, ast.Expr)) for x in s_.body + s_.orelse):
+                stmts.append(copy.deepcopy(s_))
+        # backward slice: only the statements the iterable depends on
+        need, kept = set(names_in(it)), []
+        for s_ in reversed(stmts):
+            stores = {n_.id for n_ in ast.walk(s_) if isinstance(n_, ast.Name) and isinstance(n_.ctx, ast.Store)}
+            if stores & need:
+                kept.append(s_)
+                need |= {n_.id for n_ in ast.walk(s_) if isinstance(n_, ast.Name) and isinstance(n_.ctx, ast.Load)}
+        stmts = list(reversed(kept))
+        fn = ast.FunctionDef(name='grouping', args=copy.deepcopy(o.args), body=stmts + [ast.Return(value=copy.deepcopy(it))], decorator_list=[], lineno=o.lineno, col_offset=0)
+        ast.fix_missing_locations(fn)
+
+        def flat(x, out):
+            if isinstance(x, (list, tuple)):
+                for y in x:
+                    flat(y, out)
+            elif isinstance(x, str) and x.startswith('cmd'):
+                out.append(x)
+            return out
+
+        def hook(ev, call, env):
+            d = dotted(call.func) or ''
+            if d == 'print' or d.startswith('plt.') or d.startswith('fig') or d.startswith('ax'):
+                return None
+            return NotImplemented
+        bad, n = None, 0
+        try:
+            for nc in range(0, 13):
+                for th in range(1, 5):
+                    n += 1
+                    cmds = [f'cmd{i}' for i in range(nc)]
+                    kw = {p_: None for p_ in params[1:]}
+                    kw.update({'threads': th, 'live_update': False, 'show_progress': False, 'count_function': '<count_function>', 'show_n_cells': 4, 'update_interval': 3})
+                    kw = {k_: v_ for k_, v_ in kw.items() if k_ in params}
+                    got = run_function(fn, [list(cmds)], kw, call_hook=hook, budget=40000)
+                    got = flat(list(got) if not isinstance(got, (list, tuple)) else got, [])
+                    if sorted(got) != sorted(cmds) and bad is None:
+                        missing = [x for x in cmds if x not in got]
+                        twice = sorted({x for x in got if got.count(x) > 1})
+                        bad = {'commands': nc, 'threads': th, 'never executed': missing, 'executed twice': twice}
+        except (Unfoldable, Raised, Exception) as e_:
+            ctx.emit('C12-R7', False, BINCOUNTS, c, f'the pool maps over `{src(it)[:60]}`; how it is built from `{cmd}` is outside the interpreted subset ({type(e_).__name__}: {str(e_)[:80]})', key='every-command-executed', undecided=True)
+            continue
+        ctx.counters['interpreted_cases'] = ctx.counters.get('interpreted_cases', 0) + n
+        ctx.emit('C12-R7', bad is None, BINCOUNTS, c, f'the pool maps over `{src(it)[:60]}`: over {n} (commands, threads) sizes it contains every command exactly once' if bad is None else
+                 f'the pool maps over `{src(it)[:60]}`, which does not contain every command once: {bad} - the bins of those jobs are missing from the matrix', key='every-command-executed', witness=bad,
+                 what='obtain_counts: some count commands are never handed to a worker')
 
 
 META = {
